@@ -4,11 +4,16 @@
 package lang
 
 // sort.Interface methods: package sort calls them with indices inside [0, Len()).
-//@ contract (lang.Candidates).Less (ca, i, j)
+//@ contract (lang.Candidates).Less (ca, i, j) (less)
 //@   requires 0 <= i && i < len(ca.List) && 0 <= j && j < len(ca.List)
+//@   ensures [C07,C06,C08,name:candidates-are-ordered-by-name] less == (ca.List[i].Label < ca.List[j].Label)
 //@ contract (lang.Candidates).Swap (ca, i, j)
 //@   requires 0 <= i && i < len(ca.List) && 0 <= j && j < len(ca.List)
 //@   modifies ca.List[*]
+// ---- C11: two paths are the same only if directory and language agree (one directory may be served under
+// ---- several languages).
+//@ contract (lang.Path).Equals (path, p) (result)
+//@   ensures [C11,name:same-directory-and-same-language] result == (path.Path == p.Path && path.LanguageID == p.LanguageID)
 //@ contract (lang.Address).FirstSteps (a, steps)
 //@   requires steps <= uint(len(a))
 //@ contract (lang.DiagnosticsMap).Extend (dm, diagMap)
